@@ -119,7 +119,8 @@ def run_sequence(res, exe, rng, first, forced=None):
                             last = True
                         resp = bytes([(tog << 4) | ((7 - len(chunk)) << 1) | (1 if last else 0)]) + chunk + bytes(7 - len(chunk))
                         if beh == "oversize":
-                            resp = bytes([(tog << 4) | 0]) + gen.rand_bytes(rng, 7)
+                            resp = bytes([(tog << 4) | 0]) + gen.rand_bytes(rng, 7)      # one more (non-final) segment than announced
+                            last = False
                         pos += len(chunk)
                         final_after = last
                 else:
